@@ -489,3 +489,25 @@ def _refine(b: Bounds, env: Env, cond, pol: bool):
             elif rel in ("gt", "ge"):
                 env.assume_le(y, x, rel == "gt")
         return
+
+
+def select_under(b: Bounds, t):
+    """Simplify a term under the environment: resolve where/ite/min/max whose outcome the environment decides."""
+    if not isinstance(t, T.Term):
+        return t
+    if t.op in ("np.where", "ite"):
+        c, x, y = t.args
+        et, ef = refine(b, c, True), refine(b, c, False)
+        if et.infeasible and not ef.infeasible:
+            return select_under(b, y)
+        if ef.infeasible and not et.infeasible:
+            return select_under(b, x)
+        return t
+    if t.op in ("np.maximum", "np.minimum"):
+        x, y = t.args
+        if b.prove_le(x, y):
+            return select_under(b, y if t.op == "np.maximum" else x)
+        if b.prove_le(y, x):
+            return select_under(b, x if t.op == "np.maximum" else y)
+        return t
+    return t
